@@ -115,12 +115,13 @@ Hypothesis R_bin : forall k a a' b b', R a a' -> R b b' -> R (binf C k a b) (bin
 Hypothesis R_un : forall k a a', R a a' -> R (unf C k a) (unf C k a').
 Variable flagged : nat -> Prop.
 Hypothesis flagged_assoc : forall k, flagged k -> forall a b c, R (binf C k (binf C k a b) c) (binf C k a (binf C k b c)).
-Variable vals : list D.
+Variable look : nat -> str -> D.
+Variable okvar : nat -> str -> Prop.
 Variable okvars : list str -> Prop.
-Local Notation dden := (dden C vals).
-Local Notation nden := (nden C vals).
-Local Notation dwf := (dwf flagged vals okvars).
-Local Notation nwf := (nwf flagged vals okvars).
+Local Notation dden := (dden C look).
+Local Notation nden := (nden C look).
+Local Notation dwf := (dwf flagged okvar okvars).
+Local Notation nwf := (nwf flagged okvar okvars).
 
 Lemma nval_dec orig f : nun f = [] -> nval C (map nden orig) f = nden (dec orig f).
 Proof.
